@@ -200,30 +200,18 @@ def apply_R2(chunk, loop_idx, log, where):
 
 
 def apply_regex_rule(chunk, rule, pattern, repl, log, where, count=None, flags=re.S):
-    """Generic logged regex rewrite on code positions. count=None: any number (>=0) unless
-    count given (exact)."""
+    """Generic logged regex rewrite on code positions (single pass: matches are found in the text as it
+    is and replaced from the last to the first, so a replacement is never rescanned).
+    count=None: any number (>= 0); otherwise the exact number of rewrites expected."""
+    occ = chunk.code_find_all(pattern, regex=True)
     n = 0
-    while True:
-        occ = chunk.code_find_all(pattern, regex=True)
-        # skip occurrences already rewritten (those inside lines tagged with this rule)
-        done = False
-        for (s, e, m) in occ:
-            li = chunk.line_index(s)
-            org = chunk.lines[li].origin
-            if org[0] == 'rw' and org[1] == rule and getattr(m.re, 'pattern', None) and m.group(0) == m.expand(repl):
-                continue
-            new = m.expand(repl) if isinstance(repl, str) else repl(m)
-            if new == m.group(0):
-                continue
-            chunk.replace_span(s, e, new, rule)
-            log.add(rule, where, m.group(0), new)
-            n += 1
-            done = True
-            break
-        if not done:
-            break
-        if n > 500:
-            raise ExtractError('rule %s does not terminate in %s' % (rule, where))
+    for (s_, e_, m) in reversed(occ):
+        new = m.expand(repl) if isinstance(repl, str) else repl(m)
+        if new == m.group(0):
+            continue
+        chunk.replace_span(s_, e_, new, rule)
+        log.add(rule, where, m.group(0), new)
+        n += 1
     if count is not None and n != count:
         raise ExtractError('rule %s expected %d rewrites in %s, did %d' % (rule, count, where, n))
     return n
@@ -567,7 +555,9 @@ def build_fn_chunk(chunk, fspec, fnkey, built, cover, relwhere):
         line = chunk.lines[lidx]
         pre, post = line.text[:col], line.text[col + 1:]
         spec_lines = []
+        spec_lines += _clause_lines('invariant_except_break', [('loop%d.xb.%s' % (li, c[0]),) + tuple(c[1:]) for c in ls.get('invariant_except_break', [])], fnkey, built, ls.get('props', default_props))
         spec_lines += _clause_lines('invariant', [('loop%d.%s' % (li, c[0]),) + tuple(c[1:]) for c in ls.get('invariant', [])], fnkey, built, ls.get('props', default_props))
+        spec_lines += _clause_lines('ensures', [('loop%d.post.%s' % (li, c[0]),) + tuple(c[1:]) for c in ls.get('ensures', [])], fnkey, built, ls.get('props', default_props))
         if ls.get('decreases'):
             spec_lines.append(Line('    decreases ' + ls['decreases'], ('clause', fnkey + '::loop%d.decreases' % li)))
             built.clauses[fnkey + '::loop%d.decreases' % li] = {'fn': fnkey, 'kind': 'decreases', 'props': ls.get('props', default_props), 'text': ls['decreases']}
@@ -597,7 +587,7 @@ def build_fn_chunk(chunk, fspec, fnkey, built, cover, relwhere):
                 raise ExtractError('anchor %r matches %d times in %s (need exactly 1)' % (anchor, len(occ), fnkey))
             s, e, _ = occ[0]
         else:
-            if nth >= len(occ):
+            if nth >= len(occ) or -nth > len(occ):
                 raise ExtractError('anchor %r occurrence #%d not found in %s' % (anchor, nth, fnkey))
             s, e, _ = occ[nth]
         cid = fnkey + '::' + sp['id']
